@@ -6,9 +6,9 @@ cd "$WT" || exit 3
 git checkout -q -- . 2>/dev/null
 git apply "$S/patch.diff" || { echo "apply failed"; exit 3; }
 make all > /dev/null 2>&1
-sh "$S/run.sh" > "/tmp/confirm_with.log" 2>&1; A=$?
+sh "$S/run.sh" > "$WT/.confirm_with.log" 2>&1; A=$?
 git checkout -q -- .
 make all > /dev/null 2>&1
-sh "$S/run.sh" > "/tmp/confirm_without.log" 2>&1; B=$?
+sh "$S/run.sh" > "$WT/.confirm_without.log" 2>&1; B=$?
 echo "$WT/$S: with change exit=$A ; without change exit=$B"
-[ "$A" -ne 0 ] && [ "$B" -eq 0 ] && echo CONFIRMED || { echo NOT-CONFIRMED; tail -3 /tmp/confirm_with.log; tail -3 /tmp/confirm_without.log; }
+[ "$A" -ne 0 ] && [ "$B" -eq 0 ] && echo CONFIRMED || { echo NOT-CONFIRMED; tail -3 $WT/.confirm_with.log; tail -3 $WT/.confirm_without.log; }
